@@ -219,6 +219,41 @@ class PairTable(EnumPart):
         return Out(nt=overlap, labels=labels)
 
 
+class NestedPairTable(PairTable):
+    """The same pairs inside the parse group of a third custom token: exercises the child-resolution path
+    (eval_new_child) with the outcome table of the statement."""
+    name = 'nested-pair-table'
+    rule = ('the 10400 pair configurations placed inside the parse group of an enclosing custom token W (parse_inner, '
+            'parse_group 0, spanning the whole text): expected = W containing the pair outcome')
+
+    def check(self, c):
+        sa, sb = ALLEN[c['rel']]
+        a = dict(name='A', span=tuple(sa), pg=c['ga'], prec=c['pa'], inner=c['ia'])
+        b = dict(name='B', span=tuple(sb), pg=c['gb'], prec=c['pb'], inner=c['ib'])
+        A = _synthetic_type('A', a['span'], a['pg'], a['prec'], a['inner'])
+        B = _synthetic_type('B', b['span'], b['pg'], b['prec'], b['inner'])
+        W = _synthetic_type('W', (0, len(TEXT)), 0, 5, True)
+        types = [W, A, B] if c['order'] == 0 else [B, A, W]
+        overlap = not (sa[1] <= sb[0] or sb[1] <= sa[0])
+        want = expected_pair(a, b)
+        labels = ('rel:' + c['rel'], 'asserted' if want is not None else 'invariants-only')
+        try:
+            doc = parse_under(types, TEXT)
+            toks = doc.children[0].children
+            got = shape(toks)
+            errs = tiling_errors(toks, 0, len(TEXT), TEXT, {'A', 'B', 'W'})
+            errs += after_context_errors(types, TEXT)
+        except Exception as exc:
+            return Out(Fail('no-raise', 'raised ' + exc_sig(exc), case=c, error=repr(exc)), nt=overlap, labels=labels)
+        if errs:
+            return Out(Fail('tiling', 'invariant (nested)', case=c, errors=errs[:4], shape=got), nt=overlap, labels=labels)
+        if len(got) != 1 or got[0][0] != 'W':
+            return Out(Fail('precedence', 'enclosing token lost', case=c, actual=got), nt=overlap, labels=labels)
+        if want is not None and got[0][1] != want:
+            return Out(Fail('precedence', 'nested outcome %s' % c['rel'], case=c, expected=[['W', want]], actual=got), nt=overlap, labels=labels)
+        return Out(nt=overlap, labels=labels)
+
+
 PATTERNS = [
     (r'\{([^{}]*)\}', (0, 1)), (r'\{\{(.+?)\}\}', (0, 1)), (r'\(([a-z ]+)\)', (0, 1)), (r'@([a-z]+)', (0, 1)),
     (r'=(.+?)=', (0, 1)), (r':([a-z]*):', (0, 1)), (r';[a-z]+', (0,)), (r'([a-z]+)/([a-z]+)', (0, 1, 2)),
@@ -330,7 +365,7 @@ class C16(Prop):
     )
 
     def parts(self):
-        return [PairTable(), RandomSets()]
+        return [PairTable(), NestedPairTable(), RandomSets()]
 
 
 PROP = C16()
